@@ -106,6 +106,28 @@ var positions = []struct {
 	{"merge_source_subquery", "MERGE INTO t1 USING ( SELECT a FROM t2 WHERE %s ) s ON t1 . a = s . a WHEN MATCHED THEN DELETE", 1, false},
 	{"merge_update_set", "MERGE INTO t1 USING t2 ON t1 . a = t2 . a WHEN MATCHED THEN UPDATE SET b = %s", 1, true},
 	{"merge_insert_values", "MERGE INTO t1 USING t2 ON t1 . a = t2 . a WHEN NOT MATCHED THEN INSERT ( a , b ) VALUES ( 1 , %s )", 1, true},
+	{"on_conflict_set", "INSERT INTO t1 VALUES ( 1 ) ON CONFLICT ( a ) DO UPDATE SET a = %s", 1, true},
+	{"on_conflict_where", "INSERT INTO t1 VALUES ( 1 ) ON CONFLICT ( a ) DO UPDATE SET a = 2 WHERE %s", 1, false},
+	{"on_duplicate_key_set", "INSERT INTO t1 VALUES ( 1 ) ON DUPLICATE KEY UPDATE a = %s", 1, true},
+	{"replace_values", "REPLACE INTO t1 VALUES ( 1 , %s )", 0, true},
+	{"insert_returning", "INSERT INTO t1 VALUES ( 1 ) RETURNING %s", 1, true},
+	{"update_returning", "UPDATE t1 SET a = 1 WHERE b = 2 RETURNING %s", 1, true},
+	{"delete_returning", "DELETE FROM t1 WHERE b = 2 RETURNING %s", 1, true},
+	{"distinct_on", "SELECT DISTINCT ON ( %s ) a FROM t1", 1, true},
+	{"window_order", "SELECT sum ( a ) OVER ( ORDER BY %s ) FROM t1", 1, true},
+	{"aggregate_order_by", "SELECT array_agg ( a ORDER BY %s ) FROM t1", 1, true},
+	{"within_group", "SELECT percentile_cont ( 0.5 ) WITHIN GROUP ( ORDER BY %s ) FROM t1", 1, true},
+	{"subscript_index", "SELECT a [ %s ] FROM t1", 1, true},
+	{"json_operand", "SELECT a -> %s FROM t1", 1, true},
+	{"lateral_subquery", "SELECT a FROM t1 , LATERAL ( SELECT b FROM t2 WHERE %s ) l", 1, false},
+	{"join_derived", "SELECT a FROM t1 JOIN ( SELECT b FROM t2 WHERE %s ) d ON t1 . a = d . b", 1, false},
+	{"insert_cte", "WITH c AS ( SELECT a FROM t2 WHERE %s ) INSERT INTO t1 SELECT a FROM c", 1, false},
+	{"delete_cte", "WITH c AS ( SELECT a FROM t2 WHERE %s ) DELETE FROM t1 WHERE a IN ( SELECT a FROM c )", 1, false},
+	{"values_subquery", "INSERT INTO t1 VALUES ( ( SELECT b FROM t2 WHERE %s ) )", 1, false},
+	{"update_set_subquery", "UPDATE t1 SET a = ( SELECT b FROM t2 WHERE %s )", 1, false},
+	{"having_subquery", "SELECT a FROM t1 GROUP BY a HAVING count ( * ) > ( SELECT 1 FROM t2 WHERE %s )", 1, false},
+	{"order_by_subquery", "SELECT a FROM t1 ORDER BY ( SELECT 1 FROM t2 WHERE %s )", 1, false},
+	{"match_against_and", "SELECT a FROM t1 WHERE MATCH ( a ) AGAINST ( 'x' ) AND %s", 0, false},
 	{"view_body", "CREATE VIEW v1 AS SELECT a FROM t1 WHERE %s", 1, false},
 	{"materialized_view_body", "CREATE MATERIALIZED VIEW mv1 AS SELECT a FROM t1 WHERE %s", 1, false},
 }
